@@ -30,6 +30,65 @@ package vgirpc
 //@   property C15
 //@   at call "(time.Time).Add" assert [expiry] arg0 == unixTime(createdAt, 0) && arg1 == c.ttl
 
+// The cache itself. Representation invariant: every map value is an element of the order list
+// holding a *callStateEntry whose key is the map key it is stored under, and every element of
+// the list is the map's value for the key it holds. The representation is touched by the
+// constructor, get and put only (checked over the whole package), so the invariant — established
+// by the constructor, kept by get and put — holds whenever either is entered. With it:
+//   * neither dynamic-type assertion on a list element can panic;
+//   * a hit returns the call stored under exactly this (call id, identity) key, and only while
+//     the entry's expiry — which put computed as the token's createdAt + ttl — has not passed;
+//   * put leaves the map holding, under the key, an entry with the given call and that expiry
+//     (unless the cache is so small that the eviction loop removed it again);
+//   * a disabled cache (nil, or max <= 0) never hits and stores nothing.
+//
+//@ pure func callEntryOf(e *list.Element) *callStateEntry = as(e.Value, "*callStateEntry")
+//@ pure func wfCalls(c *callStateCache) bool = c.order != nil && c.entries != nil &&
+//@     (forall k string :: has(c.entries, k) ==> c.entries[k] != nil && c.entries[k].list == c.order &&
+//@         typeof(c.entries[k].Value) == *callStateEntry && callEntryOf(c.entries[k]) != nil && callEntryOf(c.entries[k]).key == k) &&
+//@     (forall e *list.Element :: e != nil && e.list == c.order ==>
+//@         typeof(e.Value) == *callStateEntry && callEntryOf(e) != nil && has(c.entries, callEntryOf(e).key) && c.entries[callEntryOf(e).key] == e)
+//@ encapsulated callStateCache.entries, callStateCache.order by newCallStateCache, (*callStateCache).get, (*callStateCache).put
+//@ immutable callStateCache.max
+//@ immutable callStateCache.ttl
+//
+//@ pure func identityOf(auth *AuthContext) string = (auth == nil || !auth.Authenticated) ? "\x00anonymous" : auth.Domain + "\x00" + auth.Principal
+//@ func callStateIdentity
+//@   property C15
+//@   modifies nothing
+//@   ensures [identity] result == identityOf(auth)
+//
+//@ func newCallStateCache
+//@   property C15
+//@   ensures [wf] result != nil && wfCalls(result)
+//@   ensures [ttl] result.ttl == (ttl <= 0 ? 3600000000000 : ttl) && result.max == max
+//
+//@ func (*callStateCache).get
+//@   property C15
+//@   objinvariant c != nil ==> wfCalls(c)
+//@   entryfact c != nil ==> (forall k string :: has(c.entries, k) ==> !fresh(c.entries[k]) && !fresh(callEntryOf(c.entries[k])))
+//@   nopanic(typeassert, nil)
+//@   pathvar now time.Time
+//@   at call time.Now setflag now result
+//@   ensures [disabled] c == nil || c.max <= 0 ==> result == nil
+//@   ensures [local_hit_ret5] old(has(c.entries, key)) && result == old(callEntryOf(c.entries[key]).call) && !timeAfter(now, old(callEntryOf(c.entries[key]).expiresAt))
+//@   ensures [local_key_ret5] key == callID + "\x00" + identityOf(auth)
+//@   ensures [local_miss_ret3] !old(has(c.entries, key)) && result == nil
+//@   ensures [local_expired_ret4] result == nil && !has(c.entries, key)
+//
+//@ func (*callStateCache).put
+//@   property C15
+//@   # (returns are numbered by position; the implicit return at the end has none and comes second, after the recover block)
+//@   objinvariant c != nil ==> wfCalls(c)
+//@   entryfact c != nil ==> (forall k string :: has(c.entries, k) ==> !fresh(c.entries[k]) && !fresh(callEntryOf(c.entries[k])))
+//@   nopanic(typeassert, nil)
+//@   loop 0 invariant wfCalls(c) && (forall k string :: has(c.entries, k) && c.entries[k] != el ==> !fresh(c.entries[k]) && !fresh(callEntryOf(c.entries[k])))
+//@   loop 0 invariant [stored] has(c.entries, key) ==> c.entries[key] == el && callEntryOf(el).call == call && callEntryOf(el).expiresAt == expiresAt
+//@   ensures [local_key_ret4] key == callID + "\x00" + identityOf(auth)
+//@   ensures [local_key_ret2] key == callID + "\x00" + identityOf(auth)
+//@   ensures [local_updated_ret4] has(c.entries, key) && callEntryOf(c.entries[key]).call == call && callEntryOf(c.entries[key]).expiresAt == expiresAt
+//@   ensures [local_inserted_ret2] has(c.entries, key) ==> callEntryOf(c.entries[key]).call == call && callEntryOf(c.entries[key]).expiresAt == expiresAt
+
 // ---- C14: a continuation token only resumes the stream method that minted it ----
 //
 // mintedFor(d, method): the cursor d was minted by a call to `method`. Nothing in the token
